@@ -308,7 +308,11 @@ func (f *file) writeBlobAt(op string, p blob.Blob, off int64) (n int, err error)
 		off = int64(f.Size())
 	}
 
-	if p.Len() == 0 && off >= 0 {
+	if off < 0 {
+		// fail before growing the file
+		return 0, &hackpadfs.PathError{Op: op, Path: f.path, Err: errors.New("negative offset")}
+	}
+	if p.Len() == 0 {
 		// nothing to write, don't grow the file up to 'off'
 		return 0, nil
 	}
